@@ -548,7 +548,13 @@ func (c *checker) rejectsPlain(p *position) bool {
 // parseBack parses text with the library and compares the bytes at the position.
 func (c *checker) parseBack(dir string, p *position, it item, text, tok string) bool {
 	b := it.b
+	// the direction is part of the signature: the library failing to read ITS OWN output (code -> spec)
+	// is a different finding from the parser failing on a spelling LLVM would write (spec -> code) --
+	// an open entry of the second kind must not hide a printer that starts to emit that spelling
 	site := "parser"
+	if dir == "T" {
+		site = "parser on the library's own output"
+	}
 	var m *ir.Module
 	var err error
 	if msg, pan := mbt.Guard(func() { m, err = asm.ParseString("c11.ll", text) }); pan {
